@@ -52,6 +52,10 @@ type c15Scen struct {
 	// answer carrying the representation's length, or simply a handler that knows its size): a declared
 	// length is not a sent length
 	DeclaredCL bool `json:"handler_sets_content_length_header,omitempty"`
+	// Nested: the container is mounted with HandleWithFilter in an outer container (which does the
+	// encoding, if any) whose own container filter reads StatusCode() and ContentLength() of ITS Response
+	// after the chain: the same bookkeeping one level up
+	Nested bool `json:"mounted_in_an_outer_container_with_an_observing_filter,omitempty"`
 }
 
 var c15First = []string{"none", "WriteHeader", "WriteEntity", "WriteHeaderAndEntity", "WriteAsJson", "WriteAsXml", "WriteJson", "WriteHeaderAndJson", "WriteHeaderAndXml", "WriteError", "WriteErrorString", "WriteServiceError"}
@@ -99,6 +103,7 @@ func genC15(x *Ctx) *c15Scen {
 	}
 	sc.Swap = tp.Chance(150)
 	sc.DeclaredCL = tp.Chance(80)
+	sc.Nested = tp.Chance(100)
 	if tp.Chance(30) {
 		sc.Prior = []int{3, 17, 40, 130}[tp.G(4)]
 	}
@@ -121,6 +126,8 @@ type c15Obs struct {
 	escaped   interface{}
 	ran       bool
 	swapN     int // bytes accepted through the wrapper the swapping filter installed
+	oStatus   int // StatusCode() / ContentLength() seen by the outer container's filter (Nested)
+	oLength   int
 }
 
 type c15CountWriter struct {
@@ -253,6 +260,18 @@ func c15Exec(sc *c15Scen, mode, failAt int) *c15Obs {
 	if sc.Coding != "" {
 		hdr["Accept-Encoding"] = sc.Coding
 	}
+	if sc.Nested {
+		outer := restful.NewContainer()
+		outer.EnableContentEncoding(sc.Coding != "")
+		c.EnableContentEncoding(false)
+		outer.Filter(func(req *restful.Request, resp *restful.Response, chain *restful.FilterChain) {
+			chain.ProcessFilter(req, resp)
+			obs.oStatus, obs.oLength = resp.StatusCode(), resp.ContentLength()
+		})
+		outer.HandleWithFilter("/", c)
+		obs.escaped = Serve(outer, EntryServeHTTP, obs.w, NewReq("GET", "/b/k", hdr, nil, 0, 1))
+		return obs
+	}
 	obs.escaped = Serve(c, EntryServeHTTP, obs.w, NewReq("GET", "/b/k", hdr, nil, 0, 1))
 	return obs
 }
@@ -314,6 +333,9 @@ func runC15(x *Ctx) {
 		}
 		if o.status != o.hStatus || o.length != o.hLength {
 			x.Violate("filter-sees-other-values", "%s: the handler reads status %d length %d, the trailing filter %d and %d", what, o.hStatus, o.hLength, o.status, o.length)
+		}
+		if sc.Nested && (o.oStatus != wantStatus || ((sc.Coding == "" || v.mode == sim.WFaultNone) && o.oLength != o.length)) {
+			x.Violate("status-bookkeeping", "%s: the filter of the outer container (the inner one is mounted with HandleWithFilter) reads status %d length %d from its Response, the inner filter %d and %d, the underlying writer received %v", what, o.oStatus, o.oLength, o.status, o.length, o.w.Statuses)
 		}
 		if sc.Swap && (sc.Coding == "" || v.mode == sim.WFaultNone) && o.swapN != o.length {
 			x.Violate("length-bookkeeping", "%s: ContentLength() is %d, but the writer a filter had put into Response.ResponseWriter for the rest of the chain accepted %d bytes (the others went around it)", what, o.length, o.swapN)
